@@ -130,8 +130,14 @@ def run(prop, tier, seed, replay=None):
     # (d) cases: corpus first, then generated
     corpus = load_corpus(getattr(prop, "corpus_name", pid))
     if replay:
-        cases = [json.load(open(replay))["case"]]
-        corpus = []
+        rj = json.load(open(replay))
+        if rj.get("case") is not None:
+            cases = [rj["case"]]
+            corpus = []
+        else:
+            # replay of a `proof-or-tie-broken` report (no failing input was found): re-check the
+            # proofs / the source tie and search again over the corpus
+            cases = list(corpus)
     else:
         cases = corpus + prop.gen.generate(seed, prop.counts[tier])
     cpath = os.path.join(outdir, "cases_%s.txt" % tier)
